@@ -12,7 +12,7 @@ SPEC = dict(
          "present/absent/empty/overlapping); the same tagsToSections value is reused across cases; non-trivial = >= 2 "
          "sections derived. CAdd: ShardBuilder.Add on arbitrary section lists (on/off rune boundaries, swapped, Start>End, "
          "past end, at end, duplicates). CUtf8Row/CUtf8/CEnc: unicode/utf8 vs Lib/Utf8.v — all 1- and 2-byte strings "
-         "exhaustively, 3/4-byte rows exhaustive in the last byte, random and mutated strings (DecodeRune loop, Valid, "
+         "exhaustively (thorough: all 3-byte strings too), 3/4-byte rows exhaustive in the last byte, random and mutated strings (DecodeRune loop, Valid, "
          "RuneCount, []rune round trip), AppendRune on valid/surrogate/out-of-range runes. Distinct by full input.",
     trusted_base=["correspondence harness harness/overlay/index/zz_verif_c37_test.go (generator, canonicalisation, Go oracle)",
                   "model of sort.Sort(symbolSlice) as a stable insertion sort on Start (validated by the correspondence on Add's "
